@@ -78,6 +78,13 @@ Qed.
 Lemma get_obj_in w i : (i < length w)%nat -> In (get_obj w i) w.
 Proof. intros H. unfold get_obj. now apply nth_In. Qed.
 
+Lemma index_of_app_l s cs added k : index_of s cs = Some k -> index_of s (cs ++ added) = Some k.
+Proof.
+  revert k; induction cs as [|x cs IH]; intros k H; simpl in *; [discriminate|].
+  destruct (str_eqb s x); [exact H|].
+  destruct (index_of s cs) as [j|]; [|discriminate]. rewrite (IH j eq_refl). exact H.
+Qed.
+
 Section World.
   Variable hash : str -> N.
   Variable cand : N -> N -> bool.
@@ -430,7 +437,7 @@ Section World.
         rewrite Hd. cbn [new_slot fst snd]. split; [|discriminate].
         eapply sh_new with (cs := l); [reflexivity|].
         cbn [obj_inv]. split; [exact Ha|]. split; [exact H1|]. split; [exact H2|exact H3].
-    - (* EqOp *) same.
+    - (* EqOp *) destruct (eq_obj (get_obj w i) (get_obj w j)); same.
     - (* FromIter *)
       destruct th.
       + destruct (t_extend (trodeo_new default_bytes usize_max) l) as [t ok] eqn:Ee.
@@ -463,4 +470,615 @@ Section World.
       eapply sh_new with (cs := []); [reflexivity|]. cbn [obj_inv]. now apply trodeo_new_inv.
   Qed.
 
+
+  (* ================= 1. every reachable world satisfies the invariant ================= *)
+
+  Theorem step_inv w o : WInv w -> op_wf o -> WInv (fst (step w o)).
+  Proof.
+    intros HW Hwf. destruct (step_sem w o HW Hwf) as (Hsh & _).
+    destruct Hsh as [Heq|x cs Heq Hx|i x' Heq Hlt _ Hext|i x' cs' Heq _ _ Hx]; rewrite Heq.
+    - exact HW.
+    - eapply WInv_app; eauto.
+    - destruct (WInv_get w i HW) as (cs & Hcs). destruct (Hext _ Hcs) as (added & H).
+      eapply WInv_set; eauto.
+    - eapply WInv_set; eauto.
+  Qed.
+
+  Theorem never_faults w o : WInv w -> op_wf o -> snd (step w o) <> OFault.
+  Proof. intros HW Hwf. exact (proj2 (step_sem w o HW Hwf)). Qed.
+
+  Lemma run_cons_fst w o ops : fst (run w (o :: ops)) = fst (run (fst (step w o)) ops).
+  Proof.
+    cbn [Rodeo.run]. destruct (step w o) as [w' x]. cbn [fst].
+    destruct (run w' ops). reflexivity.
+  Qed.
+
+  Lemma run_cons_snd w o ops :
+    snd (run w (o :: ops)) = snd (step w o) :: snd (run (fst (step w o)) ops).
+  Proof.
+    cbn [Rodeo.run]. destruct (step w o) as [w' x]. cbn [fst snd].
+    destruct (run w' ops). reflexivity.
+  Qed.
+
+  Theorem run_inv ops : forall w, WInv w -> Forall op_wf ops -> WInv (fst (run w ops)).
+  Proof.
+    induction ops as [|o ops IH]; intros w HW Hwf.
+    - exact HW.
+    - inversion Hwf; subst. rewrite run_cons_fst. apply IH; [|assumption]. now apply step_inv.
+  Qed.
+
+  Corollary run_inv_nil ops : Forall op_wf ops -> WInv (fst (run [] ops)).
+  Proof. apply run_inv. exact WInv_nil. Qed.
+
+  (* no operation of any history faults (reads dangling memory / writes out of bounds) *)
+  Theorem run_never_faults ops : forall w,
+    WInv w -> Forall op_wf ops -> Forall (fun x => x <> OFault) (snd (run w ops)).
+  Proof.
+    induction ops as [|o ops IH]; intros w HW Hwf.
+    - constructor.
+    - inversion Hwf; subst. rewrite run_cons_snd. constructor.
+      + now apply never_faults.
+      + apply IH; [|assumption]. now apply step_inv.
+  Qed.
+
+  Corollary run_never_faults_nil ops :
+    Forall op_wf ops -> Forall (fun x => x <> OFault) (snd (run [] ops)).
+  Proof. apply run_never_faults. exact WInv_nil. Qed.
+
+  (* ================= 2. C01: content only grows ================= *)
+
+  Theorem step_extends w o i cs :
+    WInv w -> op_wf o -> obj_inv (get_obj w i) cs -> ~ resets o i ->
+    exists added, obj_inv (get_obj (fst (step w o)) i) (cs ++ added).
+  Proof.
+    intros HW Hwf Hi Hnr. destruct (step_sem w o HW Hwf) as (Hsh & _).
+    destruct Hsh as [Heq|x cx Heq Hx|j x' Heq Hlt _ Hext|j x' cs' Heq Hlt Hr Hx]; rewrite Heq.
+    - exists []. now rewrite app_nil_r.
+    - destruct (Nat.lt_ge_cases i (length w)) as [Hl|Hg].
+      + rewrite get_app_l by exact Hl. exists []. now rewrite app_nil_r.
+      + rewrite get_obj_oob in Hi by exact Hg. cbn [obj_inv] in Hi. subst cs. cbn [app].
+        destruct (Nat.eq_dec i (length w)) as [->|Hne].
+        * rewrite get_app_new. eauto.
+        * rewrite get_obj_oob; [exists []; reflexivity|]. rewrite app_length. simpl. lia.
+    - destruct (Nat.eq_dec i j) as [->|Hne].
+      + rewrite get_set_same by exact Hlt. apply Hext. exact Hi.
+      + rewrite get_set_other by exact Hne. exists []. now rewrite app_nil_r.
+    - destruct (Nat.eq_dec i j) as [->|Hne]; [contradiction|].
+      rewrite get_set_other by exact Hne. exists []. now rewrite app_nil_r.
+  Qed.
+
+  Theorem run_extends ops : forall w i cs,
+    WInv w -> Forall op_wf ops -> obj_inv (get_obj w i) cs ->
+    (forall o, In o ops -> ~ resets o i) ->
+    exists added, obj_inv (get_obj (fst (run w ops)) i) (cs ++ added).
+  Proof.
+    induction ops as [|o ops IH]; intros w i cs HW Hwf Hi Hnr.
+    - exists []. now rewrite app_nil_r.
+    - inversion Hwf; subst. rewrite run_cons_fst.
+      destruct (step_extends w o i cs HW H1 Hi) as (a1 & H1'); [apply Hnr; now left|].
+      destruct (IH (fst (step w o)) i (cs ++ a1)) as (a2 & H2'); auto.
+      + now apply step_inv.
+      + intros o' Ho'. apply Hnr. now right.
+      + exists (a1 ++ a2). now rewrite app_assoc.
+  Qed.
+
+  (* what the abstract content answers to a key *)
+  Definition abs_resolve (cs : list str) (k : N) : option str :=
+    if k <? N.of_nat (length cs) then nth_error cs (N.to_nat k) else None.
+
+  Lemma abs_resolve_nth cs k : abs_resolve cs k = nth_error cs (N.to_nat k).
+  Proof.
+    unfold abs_resolve. destruct (k <? N.of_nat (length cs)) eqn:E; [reflexivity|].
+    apply N.ltb_ge in E. symmetry. apply nth_error_None. lia.
+  Qed.
+
+  Lemma resolve_list x cs strs a k :
+    obj_inv x cs -> obj_strs x = Some (strs, a) -> strs_resolve strs a k = abs_resolve cs k.
+  Proof.
+    intros H E. apply strs_resolve_spec. eapply obj_inv_contents; eauto.
+  Qed.
+
+  Theorem step_try_resolve w i k cs :
+    obj_inv (get_obj w i) cs -> get_obj w i <> ODead ->
+    step w (TryResolve i k) =
+    (w, match abs_resolve cs k with Some s => OStr s | None => ONone end).
+  Proof.
+    intros H Hnd. cbn [Rodeo.step].
+    destruct (get_obj w i) as [r|t|r|strs a|] eqn:E; [| | | |congruence]; cbn [obj_strs].
+    - rewrite (resolve_list (ORodeo r) cs _ _ k H eq_refl). reflexivity.
+    - cbn [obj_inv] in H. rewrite (t_resolve_inv _ _ _ k H), abs_resolve_nth. reflexivity.
+    - rewrite (resolve_list (OReader r) cs _ _ k H eq_refl). reflexivity.
+    - rewrite (resolve_list (OResolver strs a) cs _ _ k H eq_refl). reflexivity.
+  Qed.
+
+  Theorem step_resolve w i k cs :
+    obj_inv (get_obj w i) cs -> get_obj w i <> ODead ->
+    step w (Resolve i k) =
+    (w, match abs_resolve cs k with Some s => OStr s | None => OPanic end).
+  Proof.
+    intros H Hnd. cbn [Rodeo.step].
+    destruct (get_obj w i) as [r|t|r|strs a|] eqn:E; [| | | |congruence]; cbn [obj_strs].
+    - rewrite (resolve_list (ORodeo r) cs _ _ k H eq_refl). reflexivity.
+    - cbn [obj_inv] in H. rewrite (t_resolve_inv _ _ _ k H), abs_resolve_nth. reflexivity.
+    - rewrite (resolve_list (OReader r) cs _ _ k H eq_refl). reflexivity.
+    - rewrite (resolve_list (OResolver strs a) cs _ _ k H eq_refl). reflexivity.
+  Qed.
+
+  Lemma abs_resolve_app cs added k s :
+    nth_error cs (N.to_nat k) = Some s -> abs_resolve (cs ++ added) k = Some s.
+  Proof.
+    intros H. rewrite abs_resolve_nth.
+    rewrite nth_error_app1; [exact H|]. apply nth_error_Some. congruence.
+  Qed.
+
+  (* C01, for every history: once key k of slot i resolves to s, it does so after any sequence
+     of operations on any slots, as long as slot i itself is not cleared / overwritten by
+     clone_from / dropped.  (Converting the object into a reader or resolver is allowed.) *)
+  Theorem C01_roundtrip w ops i cs k s :
+    WInv w -> Forall op_wf ops -> obj_inv (get_obj w i) cs -> get_obj w i <> ODead ->
+    nth_error cs (N.to_nat k) = Some s -> k < N.of_nat (length cs) ->
+    (forall o, In o ops -> ~ resets o i) ->
+    let w' := fst (run w ops) in
+    snd (step w' (TryResolve i k)) = OStr s /\ snd (step w' (Resolve i k)) = OStr s.
+  Proof.
+    intros HW Hwf Hi _ Hn _ Hnr w'.
+    destruct (run_extends ops w i cs HW Hwf Hi Hnr) as (added & H). fold w' in H.
+    assert (Hnd : get_obj w' i <> ODead).
+    { intros Hd. rewrite Hd in H. cbn [obj_inv] in H.
+      destruct cs; [destruct (N.to_nat k); discriminate|discriminate]. }
+    rewrite (step_try_resolve w' i k _ H Hnd), (step_resolve w' i k _ H Hnd). cbn [snd].
+    rewrite (abs_resolve_app cs added k s Hn). auto.
+  Qed.
+
+  (* ================= 3. C02: the answers are functions of the content ================= *)
+
+  Definition is_interner (o : obj) : Prop :=
+    match o with ORodeo _ | OReader _ | OThreaded _ => True | _ => False end.
+
+  Theorem step_get w i s cs :
+    obj_inv (get_obj w i) cs -> is_interner (get_obj w i) ->
+    step w (Get i s) = (w, match index_of s cs with Some k => OKey k | None => ONone end).
+  Proof.
+    intros H Hk. cbn [Rodeo.step].
+    destruct (get_obj w i) as [r|t|r|strs a|] eqn:E; cbn [is_interner obj_inv] in *;
+      try contradiction.
+    - rewrite (r_get_spec hash cand keycap cand_refl _ _ s H). reflexivity.
+    - rewrite (t_get_inv _ _ _ s H). reflexivity.
+    - rewrite (r_get_spec hash cand keycap cand_refl _ _ s H). reflexivity.
+  Qed.
+
+  (* C02 for every history: the key of a string never changes while the object lives as an
+     interner or reader *)
+  Theorem C02_get_stable w ops i cs s k :
+    WInv w -> Forall op_wf ops -> obj_inv (get_obj w i) cs -> index_of s cs = Some k ->
+    (forall o, In o ops -> ~ resets o i) ->
+    let w' := fst (run w ops) in
+    is_interner (get_obj w' i) -> snd (step w' (Get i s)) = OKey k.
+  Proof.
+    intros HW Hwf Hi Hix Hnr w' Hk.
+    destruct (run_extends ops w i cs HW Hwf Hi Hnr) as (added & H). fold w' in H.
+    rewrite (step_get w' i s _ H Hk). cbn [snd].
+    rewrite (index_of_app_l s cs added k Hix). reflexivity.
+  Qed.
+
+  Theorem step_contains w i s cs :
+    obj_inv (get_obj w i) cs -> is_interner (get_obj w i) ->
+    step w (Contains i s) =
+    (w, OBool (match index_of s cs with Some _ => true | None => false end)).
+  Proof.
+    intros H Hk. cbn [Rodeo.step].
+    destruct (get_obj w i) as [r|t|r|strs a|] eqn:E; cbn [is_interner obj_inv] in *;
+      try contradiction.
+    - rewrite (r_get_spec hash cand keycap cand_refl _ _ s H). reflexivity.
+    - rewrite (t_get_inv _ _ _ s H). reflexivity.
+    - rewrite (r_get_spec hash cand keycap cand_refl _ _ s H). reflexivity.
+  Qed.
+
+  Lemma list_len x cs strs a :
+    obj_inv x cs -> obj_strs x = Some (strs, a) -> length strs = length cs.
+  Proof.
+    intros H E. symmetry. eapply contents_length. eapply obj_inv_contents; eauto.
+  Qed.
+
+  Theorem step_len w i cs :
+    obj_inv (get_obj w i) cs -> get_obj w i <> ODead ->
+    step w (Len i) = (w, ONum (N.of_nat (length cs))).
+  Proof.
+    intros H Hnd. cbn [Rodeo.step].
+    destruct (get_obj w i) as [r|t|r|strs a|] eqn:E; [| | | |congruence]; cbn [obj_strs].
+    - rewrite (list_len (ORodeo r) cs _ _ H eq_refl). reflexivity.
+    - cbn [obj_inv] in H. rewrite (t_len_inv _ _ _ H). reflexivity.
+    - rewrite (list_len (OReader r) cs _ _ H eq_refl). reflexivity.
+    - rewrite (list_len (OResolver strs a) cs _ _ H eq_refl). reflexivity.
+  Qed.
+
+  Theorem step_is_empty w i cs :
+    obj_inv (get_obj w i) cs -> get_obj w i <> ODead ->
+    step w (IsEmpty i) = (w, OBool (N.of_nat (length cs) =? 0)).
+  Proof.
+    intros H Hnd. cbn [Rodeo.step].
+    destruct (get_obj w i) as [r|t|r|strs a|] eqn:E; [| | | |congruence]; cbn [obj_strs].
+    - rewrite (list_len (ORodeo r) cs _ _ H eq_refl). reflexivity.
+    - cbn [obj_inv] in H. rewrite (t_len_inv _ _ _ H). reflexivity.
+    - rewrite (list_len (OReader r) cs _ _ H eq_refl). reflexivity.
+    - rewrite (list_len (OResolver strs a) cs _ _ H eq_refl). reflexivity.
+  Qed.
+
+  Theorem step_contains_key w i k cs :
+    obj_inv (get_obj w i) cs -> get_obj w i <> ODead ->
+    step w (ContainsKey i k) = (w, OBool (k <? N.of_nat (length cs))).
+  Proof.
+    intros H Hnd. cbn [Rodeo.step].
+    destruct (get_obj w i) as [r|t|r|strs a|] eqn:E; [| | | |congruence];
+      cbn [obj_strs]; unfold strs_contains_key.
+    - rewrite (list_len (ORodeo r) cs _ _ H eq_refl). reflexivity.
+    - cbn [obj_inv] in H. destruct (t_ref_inv _ _ _ k H) as (refs & _ & _ & _ & Hiff).
+      do 2 f_equal. destruct (t_ref t k) as [x|].
+      + symmetry. apply N.ltb_lt. apply Hiff. discriminate.
+      + symmetry. apply N.ltb_ge. apply N.le_ngt. intros Hlt. apply Hiff in Hlt. congruence.
+    - rewrite (list_len (OReader r) cs _ _ H eq_refl). reflexivity.
+    - rewrite (list_len (OResolver strs a) cs _ _ H eq_refl). reflexivity.
+  Qed.
+
+  (* the iterators of a list-shaped object behave as a double-ended queue over the enumerated
+     content (IterEqProofs.deque_iter), in particular they yield no ItPanic item.  The one
+     exception is the KEYED iterator of a resolver that holds more strings than the key type
+     has keys (only a deserialised resolver can): hence the last hypothesis. *)
+  Theorem step_iter w i plan cs :
+    obj_inv (get_obj w i) cs -> get_obj w i <> ODead ->
+    (forall t, get_obj w i <> OThreaded t) ->
+    (forall strs a, get_obj w i = OResolver strs a -> N.of_nat (length cs) <= keycap) ->
+    step w (IterOp i plan) = (w, OItems (deque_iter (enumerate cs) plan)).
+  Proof.
+    intros H Hnd Hnt Hres.
+    destruct (get_obj w i) as [r|t|r|strs a|] eqn:E; [| | | |congruence].
+    - eapply step_iter_list; [rewrite E; reflexivity| |].
+      + eapply (obj_inv_contents (ORodeo r)); eauto; reflexivity.
+      + destruct H as (_ & _ & _ & Hc). exact Hc.
+    - exfalso. eapply Hnt. reflexivity.
+    - eapply step_iter_list; [rewrite E; reflexivity| |].
+      + eapply (obj_inv_contents (OReader r)); eauto; reflexivity.
+      + destruct H as (_ & _ & _ & Hc). exact Hc.
+    - eapply step_iter_list; [rewrite E; reflexivity| |].
+      + eapply (obj_inv_contents (OResolver strs a)); eauto; reflexivity.
+      + eapply Hres. reflexivity.
+  Qed.
+
+  Theorem step_strings w i plan cs :
+    obj_inv (get_obj w i) cs -> get_obj w i <> ODead ->
+    (forall t, get_obj w i <> OThreaded t) ->
+    step w (StringsOp i plan) = (w, OItems (deque_iter (enumerate cs) plan)).
+  Proof.
+    intros H Hnd Hnt.
+    destruct (get_obj w i) as [r|t|r|strs a|] eqn:E; [| | | |congruence].
+    - eapply step_strings_list; [rewrite E; reflexivity|].
+      eapply (obj_inv_contents (ORodeo r)); eauto; reflexivity.
+    - exfalso. eapply Hnt. reflexivity.
+    - eapply step_strings_list; [rewrite E; reflexivity|].
+      eapply (obj_inv_contents (OReader r)); eauto; reflexivity.
+    - eapply step_strings_list; [rewrite E; reflexivity|].
+      eapply (obj_inv_contents (OResolver strs a)); eauto; reflexivity.
+  Qed.
+
+  (* ================= the only panics ================= *)
+
+  (* why an operation may answer OPanic: a checked resolve of a key the object does not hold;
+     the panicking flavours of intern when the fallible one reports an error; extend /
+     from_iter when one of their interns fails; loading a list longer than the key space.
+     Nothing else panics: in particular no clone, no conversion, no comparison, no iterator
+     construction, no deserialisation of a map or into a resolver. *)
+  Definition panic_cause (w : world) (o : op) : Prop :=
+    match o with
+    | Resolve i k => forall cs, obj_inv (get_obj w i) cs -> N.of_nat (length cs) <= k
+    | InternP i s => exists e, snd (step w (Intern i s)) = OErr e
+    | InternStaticP i addr s => exists e, snd (step w (InternStatic i addr s)) = OErr e
+    | Extend i l =>
+        match get_obj w i with
+        | ORodeo r => snd (r_extend r l) = false
+        | OThreaded t => snd (t_extend t l) = false
+        | _ => False
+        end
+    | FromIter th l =>
+        if th then snd (t_extend (trodeo_new default_bytes usize_max) l) = false
+        else snd (r_extend (rodeo_new default_bytes usize_max) l) = false
+    | De k (DList l) => (k = KRodeo \/ k = KReader) /\ keycap < N.of_nat (length l)
+    | _ => False
+    end.
+
+  Ltac nopanic :=
+    let Hp := fresh "Hp" in
+    intros Hp; exfalso; revert Hp; cbn [fst snd new_slot];
+    unfold out_of_res, out_of_resP, out_of_opt_key, out_of_opt_str;
+    repeat match goal with |- context [match ?X with _ => _ end] => destruct X end;
+    cbn [fst snd new_slot]; discriminate.
+
+  Lemma abs_resolve_none cs k : abs_resolve cs k = None -> N.of_nat (length cs) <= k.
+  Proof.
+    rewrite abs_resolve_nth. intros H. apply nth_error_None in H. lia.
+  Qed.
+
+  Theorem step_panic w o :
+    WInv w -> op_wf o -> snd (step w o) = OPanic -> panic_cause w o.
+  Proof.
+    intros HW Hwf.
+    destruct o as [i s|i addr s|i s|i addr s|i s|i s|i k|i k|i k|i|i|i plan|i plan|i|i m|i|i|i
+                  |i j|i|i|i|i|k d|i j|th l|i l|cap lim|cap lim]; cbn [Rodeo.step];
+      try nopanic.
+    - (* InternP *)
+      slot w i HW cs Hcs E Hlt; try nopanic.
+      + destruct (intern r s) as [r' R] eqn:Ei. cbn [snd].
+        destruct R as [k|e]; cbn [out_of_resP]; intros Hp; [discriminate|].
+        cbn [panic_cause Rodeo.step]. rewrite E, Ei. cbn [snd out_of_res]. eauto.
+      + destruct (t_intern t s) as [t' R] eqn:Ei. cbn [snd].
+        destruct R as [k|e]; cbn [out_of_resP]; intros Hp; [discriminate|].
+        cbn [panic_cause Rodeo.step]. rewrite E, Ei. cbn [snd out_of_res]. eauto.
+    - (* InternStaticP *)
+      slot w i HW cs Hcs E Hlt; try nopanic.
+      + destruct (intern_static r addr s) as [r' R] eqn:Ei. cbn [snd].
+        destruct R as [k|e]; cbn [out_of_resP]; intros Hp; [discriminate|].
+        cbn [panic_cause Rodeo.step]. rewrite E, Ei. cbn [snd out_of_res]. eauto.
+      + destruct (t_intern_static t addr s) as [t' R] eqn:Ei. cbn [snd].
+        destruct R as [k|e]; cbn [out_of_resP]; intros Hp; [discriminate|].
+        cbn [panic_cause Rodeo.step]. rewrite E, Ei. cbn [snd out_of_res]. eauto.
+    - (* Resolve *)
+      intros Hp. cbn [panic_cause]. intros cs H.
+      destruct (get_obj w i) as [r|t|r|strs a|] eqn:E;
+        [| | | |cbn [obj_strs snd] in Hp; discriminate];
+        apply abs_resolve_none;
+        (assert (Hnd : get_obj w i <> ODead) by (rewrite E; discriminate));
+        rewrite <- E in H; pose proof (step_resolve w i k cs H Hnd) as Hr;
+        cbn [Rodeo.step] in Hr; rewrite E in Hr; cbn [obj_strs] in Hr, Hp;
+        inversion Hr as [Hr']; rewrite Hr' in Hp; cbn [snd] in Hp;
+        (destruct (abs_resolve cs k); [discriminate|reflexivity]).
+    - (* Clone *)
+      slot w i HW cs Hcs E Hlt; try nopanic.
+      destruct (r_clone_spec hash cand growf keycap _ _ Hcs) as (r' & Hcl & _).
+      rewrite Hcl. nopanic.
+    - (* CloneFrom *)
+      slot w i HW cs Hcs E Hlt; try nopanic.
+      destruct (WInv_get w j HW) as (csj & Hj).
+      destruct (get_obj w j) as [rj|tj|rj|sj aj|] eqn:Ej; try nopanic.
+      cbn [obj_inv] in Hj. destruct (Nat.eqb i j); [nopanic|].
+      destruct (r_clone_from_spec hash cand growf keycap _ _ _ _ Hcs Hj)
+        as (r' & c & Hcl & _ & Hres).
+      rewrite Hcl. destruct Hres as [(-> & _)|(-> & _)]; nopanic.
+    - (* De *)
+      destruct k, d as [l|l]; try nopanic.
+      + pose proof (de_rodeo_panic_keys hash cand growf keycap cand_refl l) as Hs.
+        destruct (de_rodeo l) as [r| |]; try nopanic.
+        intros _. cbn [panic_cause]. split; [now left|now apply Hs].
+      + cbn [op_wf] in Hwf. destruct Hwf as (Hnd & Hk).
+        destruct (de_threaded_spec keycap l Hnd Hk) as (_ & _ & Hnp).
+        destruct (de_threaded l) as [t| |]; try nopanic. congruence.
+      + pose proof (de_rodeo_panic_keys hash cand growf keycap cand_refl l) as Hs.
+        destruct (de_rodeo l) as [r| |]; try nopanic.
+        intros _. cbn [panic_cause]. split; [now right|now apply Hs].
+      + destruct (de_resolver_spec l) as (strs & a & Hd & _). rewrite Hd. nopanic.
+    - (* FromIter *)
+      cbn [panic_cause]. destruct th.
+      + destruct (t_extend (trodeo_new default_bytes usize_max) l) as [t ok].
+        destruct ok; [nopanic|reflexivity].
+      + destruct (r_extend (rodeo_new default_bytes usize_max) l) as [r ok].
+        destruct ok; [nopanic|reflexivity].
+    - (* Extend *)
+      cbn [panic_cause]. destruct (get_obj w i) as [r|t|r|strs a|]; try nopanic.
+      + destruct (r_extend r l) as [r' ok]. destruct ok; [nopanic|reflexivity].
+      + destruct (t_extend t l) as [t' ok]. destruct ok; [nopanic|reflexivity].
+  Qed.
+
+
+  (* ================= 4. C07: failure atomicity of the interning calls ================= *)
+
+  (* the abstract outcome of an interning call on content cs: [o'] is the object afterwards *)
+  Definition intern_abs (cs : list str) (s : str) (o' : obj) (R : res N) : Prop :=
+    match R with
+    | Ok k => (index_of s cs = Some k /\ obj_inv o' cs) \/
+              (index_of s cs = None /\ k = N.of_nat (length cs) /\ k < keycap /\
+               obj_inv o' (cs ++ [s]))
+    | Err e => obj_inv o' cs /\ index_of s cs = None /\
+               (e = KeySpaceExhaustion -> keycap <= N.of_nat (length cs))
+    end.
+
+  Lemma r_intern_abs r cs s r' R :
+    RodeoInv r cs -> intern r s = (r', R) -> intern_abs cs s (ORodeo r') R.
+  Proof.
+    intros Hinv Hi.
+    destruct (intern_spec hash cand growf keycap cand_refl _ _ _ _ _ Hinv Hi)
+      as [k Hix -> ->|Hix Hk -> ->|Hix Hk -> -> _ _|ref Hix Hk -> H _ _]; cbn [intern_abs obj_inv].
+    - left. auto.
+    - split; [exact Hinv|]. split; [exact Hix|]. auto.
+    - split; [exact Hinv|]. split; [exact Hix|]. discriminate.
+    - right. auto.
+  Qed.
+
+  Lemma r_intern_static_abs r cs addr s r' R :
+    RodeoInv r cs -> intern_static r addr s = (r', R) -> intern_abs cs s (ORodeo r') R.
+  Proof.
+    intros Hinv Hi.
+    destruct (intern_static_spec hash cand growf keycap cand_refl _ _ _ _ _ _ Hinv Hi)
+      as [k Hix -> ->|Hix Hk -> ->|Hix Hk -> H _ _]; cbn [intern_abs obj_inv].
+    - left. auto.
+    - split; [exact Hinv|]. split; [exact Hix|]. auto.
+    - right. auto.
+  Qed.
+
+  Lemma t_intern_abs t cs s t' R :
+    TInv t cs -> t_intern t s = (t', R) -> intern_abs cs s (OThreaded t') R.
+  Proof.
+    intros Hinv Hi.
+    destruct (t_intern_spec _ _ _ _ _ _ Hinv Hi)
+      as [k Hix -> ->|Hix -> -> _ _|ref Hix -> Hk H _ _ _ _ _ _|ref Hix -> Hk H _ _ _];
+      cbn [intern_abs obj_inv].
+    - left. auto.
+    - split; [exact Hinv|]. split; [exact Hix|]. discriminate.
+    - split; [exact H|]. split; [exact Hix|]. auto.
+    - right. auto.
+  Qed.
+
+  Lemma t_intern_static_abs t cs addr s t' R :
+    TInv t cs -> t_intern_static t addr s = (t', R) -> intern_abs cs s (OThreaded t') R.
+  Proof.
+    intros Hinv Hi.
+    destruct (t_intern_static_spec _ _ _ _ _ _ _ Hinv Hi)
+      as [k Hix -> ->|Hix -> Hk H _ _ _ _ _|Hix -> Hk H _ _ _]; cbn [intern_abs obj_inv].
+    - left. auto.
+    - split; [exact H|]. split; [exact Hix|]. auto.
+    - right. auto.
+  Qed.
+
+  Lemma step_intern_abs w i s cs w' x :
+    obj_inv (get_obj w i) cs -> step w (Intern i s) = (w', x) ->
+    x = OUnsupported \/ exists R, x = out_of_res R /\ intern_abs cs s (get_obj w' i) R.
+  Proof.
+    intros H Hst. cbn [Rodeo.step] in Hst. pose proof (get_obj_lt w i) as Hlt.
+    destruct (get_obj w i) as [r|t|r|strs a|] eqn:E; cbn [obj_inv] in H;
+      try (inversion Hst; subst; now left).
+    - destruct (intern r s) as [r' R] eqn:Ei. inversion Hst; subst w' x. right. exists R.
+      split; [reflexivity|]. rewrite get_set_same by (apply Hlt; discriminate).
+      eapply r_intern_abs; eauto.
+    - destruct (t_intern t s) as [t' R] eqn:Ei. inversion Hst; subst w' x. right. exists R.
+      split; [reflexivity|]. rewrite get_set_same by (apply Hlt; discriminate).
+      eapply t_intern_abs; eauto.
+  Qed.
+
+  Lemma step_intern_static_abs w i addr s cs w' x :
+    obj_inv (get_obj w i) cs -> step w (InternStatic i addr s) = (w', x) ->
+    x = OUnsupported \/ exists R, x = out_of_res R /\ intern_abs cs s (get_obj w' i) R.
+  Proof.
+    intros H Hst. cbn [Rodeo.step] in Hst. pose proof (get_obj_lt w i) as Hlt.
+    destruct (get_obj w i) as [r|t|r|strs a|] eqn:E; cbn [obj_inv] in H;
+      try (inversion Hst; subst; now left).
+    - destruct (intern_static r addr s) as [r' R] eqn:Ei. inversion Hst; subst w' x. right.
+      exists R. split; [reflexivity|]. rewrite get_set_same by (apply Hlt; discriminate).
+      eapply r_intern_static_abs; eauto.
+    - destruct (t_intern_static t addr s) as [t' R] eqn:Ei. inversion Hst; subst w' x. right.
+      exists R. split; [reflexivity|]. rewrite get_set_same by (apply Hlt; discriminate).
+      eapply t_intern_static_abs; eauto.
+  Qed.
+
+  (* a failed intern leaves the content as it was (for a Rodeo even the object; for a
+     ThreadedRodeo the arena may hold the orphaned string), and only fails on new strings *)
+  Theorem step_intern_err w i s cs w' e :
+    WInv w -> obj_inv (get_obj w i) cs -> step w (Intern i s) = (w', OErr e) ->
+    obj_inv (get_obj w' i) cs /\ index_of s cs = None /\
+    (e = KeySpaceExhaustion -> keycap <= N.of_nat (length cs)).
+  Proof.
+    intros _ H Hst.
+    destruct (step_intern_abs _ _ _ _ _ _ H Hst) as [Hx|(R & Hx & Habs)]; [discriminate|].
+    destruct R as [k|e0]; cbn [out_of_res] in Hx; inversion Hx; subst. exact Habs.
+  Qed.
+
+  Theorem step_intern_ok w i s cs w' k :
+    WInv w -> obj_inv (get_obj w i) cs -> step w (Intern i s) = (w', OKey k) ->
+    (index_of s cs = Some k /\ obj_inv (get_obj w' i) cs) \/
+    (index_of s cs = None /\ k = N.of_nat (length cs) /\ k < keycap /\
+     obj_inv (get_obj w' i) (cs ++ [s])).
+  Proof.
+    intros _ H Hst.
+    destruct (step_intern_abs _ _ _ _ _ _ H Hst) as [Hx|(R & Hx & Habs)]; [discriminate|].
+    destruct R as [k0|e0]; cbn [out_of_res] in Hx; inversion Hx; subst. exact Habs.
+  Qed.
+
+  Theorem step_intern_static_err w i addr s cs w' e :
+    WInv w -> obj_inv (get_obj w i) cs -> step w (InternStatic i addr s) = (w', OErr e) ->
+    obj_inv (get_obj w' i) cs /\ index_of s cs = None /\
+    (e = KeySpaceExhaustion -> keycap <= N.of_nat (length cs)).
+  Proof.
+    intros _ H Hst.
+    destruct (step_intern_static_abs _ _ _ _ _ _ _ H Hst) as [Hx|(R & Hx & Habs)]; [discriminate|].
+    destruct R as [k|e0]; cbn [out_of_res] in Hx; inversion Hx; subst. exact Habs.
+  Qed.
+
+  Theorem step_intern_static_ok w i addr s cs w' k :
+    WInv w -> obj_inv (get_obj w i) cs -> step w (InternStatic i addr s) = (w', OKey k) ->
+    (index_of s cs = Some k /\ obj_inv (get_obj w' i) cs) \/
+    (index_of s cs = None /\ k = N.of_nat (length cs) /\ k < keycap /\
+     obj_inv (get_obj w' i) (cs ++ [s])).
+  Proof.
+    intros _ H Hst.
+    destruct (step_intern_static_abs _ _ _ _ _ _ _ H Hst) as [Hx|(R & Hx & Habs)]; [discriminate|].
+    destruct R as [k0|e0]; cbn [out_of_res] in Hx; inversion Hx; subst. exact Habs.
+  Qed.
+
+  (* a Rodeo that reports an error is not modified at all *)
+  Theorem step_intern_err_rodeo w i s r cs w' e :
+    get_obj w i = ORodeo r -> RodeoInv r cs -> step w (Intern i s) = (w', OErr e) -> w' = w.
+  Proof.
+    intros E H Hst. cbn [Rodeo.step] in Hst. rewrite E in Hst.
+    destruct (intern r s) as [r' R] eqn:Ei. inversion Hst; subst w'. clear Hst.
+    assert (Hr : r' = r).
+    { destruct (intern_spec hash cand growf keycap cand_refl _ _ _ _ _ H Ei)
+        as [k _ -> _| _ _ -> _| _ _ -> _ _ _|ref _ _ -> _ _ _]; try reflexivity.
+      discriminate. }
+    subst r'. rewrite <- E. unfold set_obj, get_obj. clear.
+    revert i; induction w as [|y w IH]; intros [|i]; simpl; auto. f_equal. apply IH.
+  Qed.
+
+  (* ================= 5. C12: frame ================= *)
+
+  Lemma step_syn w o :
+    fst (step w o) = w \/ (exists x, fst (step w o) = w ++ [x]) \/
+    exists i x', In i (targets o) /\ fst (step w o) = set_obj w i x'.
+  Proof.
+    destruct o; cbn [Rodeo.step targets];
+      repeat match goal with |- context [match ?X with _ => _ end] => destruct X end;
+      cbn [fst new_slot];
+      first [ left; reflexivity
+            | right; left; eexists; reflexivity
+            | right; right; eexists _, _; split; [left; reflexivity|reflexivity] ].
+  Qed.
+
+  Theorem step_frame w o i :
+    (i < length w)%nat -> ~ In i (targets o) -> get_obj (fst (step w o)) i = get_obj w i.
+  Proof.
+    intros Hlt Hni. destruct (step_syn w o) as [->|[(x & ->)|(j & x' & Hj & ->)]].
+    - reflexivity.
+    - now apply get_app_l.
+    - apply get_set_other. intros ->. contradiction.
+  Qed.
+
+  Lemma step_length w o : (length w <= length (fst (step w o)))%nat.
+  Proof.
+    destruct (step_syn w o) as [->|[(x & ->)|(j & x' & Hj & ->)]].
+    - lia.
+    - rewrite app_length. simpl. lia.
+    - unfold set_obj. rewrite set_nth_length. lia.
+  Qed.
+
+  (* a slot is not affected by any history that does not target it *)
+  Theorem run_frame ops : forall w i,
+    (i < length w)%nat -> (forall o, In o ops -> ~ In i (targets o)) ->
+    get_obj (fst (run w ops)) i = get_obj w i.
+  Proof.
+    induction ops as [|o ops IH]; intros w i Hlt Hni.
+    - reflexivity.
+    - rewrite run_cons_fst, IH.
+      + apply step_frame; [exact Hlt|]. apply Hni. now left.
+      + pose proof (step_length w o). lia.
+      + intros o' Ho'. apply Hni. now right.
+  Qed.
+
 End World.
+
+Print Assumptions step_inv.
+Print Assumptions run_inv.
+Print Assumptions never_faults.
+Print Assumptions run_never_faults.
+Print Assumptions step_extends.
+Print Assumptions run_extends.
+Print Assumptions step_try_resolve.
+Print Assumptions step_resolve.
+Print Assumptions C01_roundtrip.
+Print Assumptions step_get.
+Print Assumptions C02_get_stable.
+Print Assumptions step_len.
+Print Assumptions step_contains_key.
+Print Assumptions step_intern_err.
+Print Assumptions step_intern_ok.
+Print Assumptions step_intern_static_err.
+Print Assumptions step_intern_static_ok.
+Print Assumptions step_iter.
+Print Assumptions step_strings.
+Print Assumptions step_panic.
+Print Assumptions step_frame.
+Print Assumptions run_frame.
